@@ -122,19 +122,10 @@ def r5_create_wrap(ck, F):
         ck.exact(R, f"create sites in {p.split('::')[-1]}", len(cr), 1, F.config)
         if not cr:
             continue
-        brs = [x for x, c, t in calls(b, "Try>::branch") if any(e.k == "call" and e.x.get("site") == cr[0][0] for e in b.arg_exprs(x)[0].walk())]
-        ok = False
-        chain = []
-        if brs:
-            e = b.arg_exprs(brs[0])[0]
-            node = e
-            while node.k == "call" and node.x.get("site") != cr[0][0]:
-                fn = node.a[1].x["path"].rsplit("::", 1)[-1] if len(node.a) > 1 and node.a[1].k == "fn" else "?"
-                chain.append((node.x["path"].rsplit("::", 1)[-1], fn))
-                node = node.a[0]
-            chain.reverse()
-            ok = chain[:2] == [("map_err", "into"), ("map_err", "convert_merge_error")] and all(x[0] in ("map", "map_err") for x in chain)
-        ck.ob(R, f"create-error-path/{p.split('::')[-1]}", ok, f"create() goes through {chain} then `?` (expected map_err(Into::into), map_err(convert_merge_error), ..)", b, cr[0][0])
+        from .errflow import err_chain, propagated
+        chain = err_chain(b, cr[0][0])
+        ok = chain == ["into", "convert_merge_error"] and propagated(F, b, cr[0][0])
+        ck.ob(R, f"create-error-path/{p.split('::')[-1]}", ok, f"the creator's error is converted with {chain} and propagated (expected Into::into then convert_merge_error)", b, cr[0][0])
     r5_reopen(ck, F, R)
 
 
@@ -155,7 +146,10 @@ def r6_flush(ck, F):
     ck.ob(R, "writer-success-exit-is-flush", len(oks) == 1 and len(fin) == 1 and oks[0][0] == fin[0][0], "Writer::into_inner's only success exit is CountWrite::into_inner(self.writer)", w)
     f = F.body(A("writer_finish"))
     e = f.expr_at_return()
-    ck.ob(R, "finish-is-into-inner", is_call(e, "Result::<T, E>::map") and is_call(e.strip().a[0], A("writer_into_inner")), f"Writer::finish = {e.show()[:80]}", f)
+    ii = calls(f, A("writer_into_inner"))
+    from .errflow import propagated
+    others = [callee_name(c) for s, c, t in f.calls() if c and c.get("resolved_local", c["local"]) and not call_matches(c, A("writer_into_inner"))]
+    ck.ob(R, "finish-is-into-inner", len(ii) == 1 and propagated(F, f, ii[0][0]) and not others and is_arg(f.arg_exprs(ii[0][0])[0], "self"), f"Writer::finish = into_inner(self) with its error propagated ({e.show()[:80]})", f)
     fb = F.body(A("count_flush"))
     e = fb.expr_at_return()
     ck.ob(R, "flush-delegates", is_call(e, "Write::flush") and is_self_field(e.strip().a[0], "inner"), "CountWrite::flush forwards to the sink's flush (result returned)", fb)
